@@ -79,7 +79,14 @@ fn imports(input: Input<'_>) -> ParserResult<'_, Vec<Import>> {
 }
 
 fn parameterized_identifier(input: Input<'_>) -> ParserResult<'_, &str> {
-    terminated(identifier, tag("{}")).parse(input)
+    terminated(
+        identifier,
+        pair(
+            skip_ws_and_comments(char(LEFT_BRACE)),
+            skip_ws_and_comments(char(RIGHT_BRACE)),
+        ),
+    )
+    .parse(input)
 }
 
 fn global_module_reference(input: Input<'_>) -> ParserResult<'_, GlobalModuleReference> {
